@@ -888,6 +888,15 @@ impl<P: Pid> Ep<P> {
                     if !c.recvs().is_empty() {
                         rules.viol("c14.oversize-delivered", &pre_m, format!("a frame of {} bytes on the wire exceeds the announced Maximum Packet Size {} but was delivered: stimulus {label}: {}", f.len(), l, c.describe()));
                     }
+                    // a well-formed frame header (one-byte Remaining Length) leaves nothing to object to but the
+                    // size - whatever the packet type, also one this role never receives: 'Packet too large'
+                    let disc = c.sends().iter().any(|a| matches!(a, AP::Disconnect { code: Some(0x95), .. }));
+                    if f.len() >= 2 && f[1] < 0x80 && f.len() == 2 + f[1] as usize && !(ty == 0 || ty == 15) && !disc && pre_m.link.peer_mps.map(|p| p >= 4).unwrap_or(true) {
+                        rules.label("c14.inbound-oversize-raw-unanswered");
+                        rules.viol("c14.oversize-not-answered", &pre_m, format!("a well-formed frame of {} bytes exceeds the announced Maximum Packet Size {} but no DISCONNECT(0x95) is sent: stimulus {label}: {}", f.len(), l, c.describe()));
+                    } else if disc {
+                        rules.label("c14.inbound-oversize-raw-answered");
+                    }
                 }
             }
             crate::rules::close_order_pub(&pre_m, &c, &mut rules);
